@@ -474,13 +474,160 @@ func c01dTrigCatchVar(src string) bool {
 	return false
 }
 
+// c01dCorpus: hand-written programs, one per branch of the declaration handling (and the inputs of the findings).
+var c01dCorpus = []string{
+	"var a;a=5",
+	"var a,b;b=5;g(a,b)",
+	"var a=g();var b=2",
+	"let a=1;let b=2;const c=3;const d=4;g(a,b,c,d)",
+	"var a;for(var b=0;b<3;b++)g(b)",
+	"var a=1;for(var b=0;b<3;b++)g(b)",
+	"g();var a=1;g();var b=2;g(a,b)",
+	"function f(){g();var a=1;g();var b=2;g(a,b)}f()",
+	"function f(){g(a);var a=1;if(a){var b=2;g(b)}for(var i=0;i<2;i++){var c=i}g(c)}f()",
+	"function f(a){g(a);var a=1;var b;g(a,b)}f(3)",
+	"function f(){g();{let a=1;var b=2;g(a,b)}var a=3;g(a)}f()",
+	"function f(){try{g();throw 1}catch(a){var a=1;g(a)}var b=2;g(a,b)}f()",
+	"function f(){var a;a=g(a)}f()",
+	"function f(){var a;b=1;var b;g(a,b)}f()",
+	"function f(){x=1;y=2;var x,y,z;g(x,y,z)}f()",
+	"function f(){g(),x=1;var x,z;g(x,z)}f()",
+	"function f(){x=1;for(var y=0;y<1;y++);var x;g(x,y)}f()",
+	"function f(){for(var i=0,j=1;i<j;i++);for(var i=0;i<2;i++);g(i,j)}f()",
+	"function f(){var a=1;while(a)a=g()}f()",
+	"function f(){{let a=1;for(;g(a);){}}var a;g(a)}f()",
+	"function f(){var a;{var b=1;a=2;g(a,b)}}f()",
+	"function f(){{a=5}{a=6}var a;g(a)}f()",
+	"function f(){for(let a=0;a<1;a++){var b=1}var a=2;var c=3;var d=4;g(a,b,c,d)}f()",
+	"g(x);let x=1",
+	"g(typeof x);let x=1",
+	"x=1;let x",
+	"const c=1;c=2",
+	"{g(y);let y=1}",
+	"var abcd=1;for(var i=0;i<1;i++)g(abcd);var c=2",
+	"var abcd=1;var efgh=2;c=3;var c;g(c)",
+	"if(a){var b=1}else{var c=2}g(b,c)",
+	"if(g())var a=1;else var b=2;g(a,b)",
+	"function f(){if(g())return;else{var a=1;g(a)}g(a)}f()",
+	"var i=0;while(i<2){var b=g(i);i++}g(b)",
+	"for(;i<1;i++){if(g())var a}",
+	"function f(){var d=0;b=1;var b;g(b)}f()",
+	"var b;function f(){var d=0;b=1}f();g(b)",
+	"for(;b;){let a=8;g(a);b=0}var a;var b;g(a)",
+	"function a(){var name,z;g(z);try{}catch(name){var name}}a()",
+}
+
+func c01dReplayInput(path string) string {
+	b, err := os.ReadFile(path)
+	if err != nil {
+		return ""
+	}
+	var obj struct {
+		Finding struct {
+			Input string `json:"input"`
+		} `json:"finding"`
+		Diffs []struct {
+			Input string `json:"input"`
+		} `json:"correspondence_diffs"`
+	}
+	if json.Unmarshal(b, &obj) != nil {
+		return ""
+	}
+	if obj.Finding.Input != "" {
+		return obj.Finding.Input
+	}
+	if len(obj.Diffs) > 0 {
+		return obj.Diffs[0].Input
+	}
+	return ""
+}
+
+// c01dKnownReplays replays the exact inputs of the open known findings on the real code, judged by node.
+func c01dKnownReplays(c *Ctx) error {
+	var pairs []c01Pair
+	type meta struct {
+		k   h.KnownEntry
+		out string
+	}
+	var metas []meta
+	for _, k := range h.Known("C01D") {
+		if k.Status != "open" {
+			continue
+		}
+		src := k.ReplayStr("src")
+		keep, _ := k.Replay["keep"].(bool)
+		out, err, crash := c01dReal(src, keep)
+		if err != nil || crash != "" {
+			c.R.AddKnown(k.ID, true, k.What, fmt.Sprint(err, crash))
+			continue
+		}
+		for seed := 0; seed < 3; seed++ {
+			pairs = append(pairs, c01Pair{ID: len(pairs), A: src, B: out, Seed: seed})
+			metas = append(metas, meta{k, out})
+		}
+	}
+	res, err := c01NodeCompare(pairs)
+	if err != nil {
+		return err
+	}
+	still := map[string]bool{}
+	obs := map[string]string{}
+	for i, r := range res {
+		id := metas[i].k.ID
+		obs[id] = metas[i].out
+		if r.Skip == "" && !r.Same {
+			still[id] = true
+			obs[id] = metas[i].out + "  => " + r.Why
+		}
+	}
+	seen := map[string]bool{}
+	for _, m := range metas {
+		if !seen[m.k.ID] {
+			seen[m.k.ID] = true
+			c.R.AddKnown(m.k.ID, still[m.k.ID], m.k.What, obs[m.k.ID])
+		}
+	}
+	return nil
+}
+
+func c01dRunAll(c *Ctx, prefix string, srcs []string, withNode bool) error {
+	cases := c01dPrepare(c, srcs)
+	if err := c01dTriggers(cases); err != nil {
+		return err
+	}
+	if err := c01dStageModel(c, prefix+"model", cases); err != nil {
+		return err
+	}
+	if err := c01dStageSpec(c, prefix+"spec", cases); err != nil {
+		return err
+	}
+	if err := c01dStageSpecNode(c, prefix+"spec-vs-node", cases); err != nil {
+		return err
+	}
+	if withNode {
+		return c01dStageNode(c, prefix+"node", cases, "input vs real output (KeepVarNames and renaming) under node, 2 host worlds")
+	}
+	return nil
+}
+
 func init() {
 	register("C01D", func(c *Ctx) error {
 		if p := os.Getenv("C01D_DEBUG"); p != "" {
 			return c01dDebug(p)
 		}
+		if c.Replay != "" {
+			if src := c01dReplayInput(c.Replay); src != "" {
+				return c01dRunAll(c, "replay-", []string{src}, true)
+			}
+		}
+		if err := c01dKnownReplays(c); err != nil {
+			return err
+		}
+		if err := c01dRunAll(c, "corpus-", c01dCorpus, true); err != nil {
+			return err
+		}
 		// 1. programs of the Lean fragment
-		n := c.N(1500, 30000)
+		n := c.N(1500, 40000)
 		if c.Search {
 			n *= 3
 		}
@@ -488,24 +635,14 @@ func init() {
 		for i := range srcs {
 			srcs[i] = c01dProgram(c.Rng.Fork(), 1+c.Rng.Intn(6), false)
 		}
-		cases := c01dPrepare(c, srcs)
-		if err := c01dTriggers(cases); err != nil {
-			return err
-		}
-		if err := c01dStageModel(c, "model", cases); err != nil {
-			return err
-		}
-		if err := c01dStageSpec(c, "spec", cases); err != nil {
-			return err
-		}
-		if err := c01dStageSpecNode(c, "spec-vs-node", cases); err != nil {
-			return err
-		}
-		if err := c01dStageNode(c, "node", cases, "input vs real output (KeepVarNames and renaming) under node, 2 host worlds; programs of the Lean fragment"); err != nil {
+		if err := c01dRunAll(c, "", srcs, true); err != nil {
 			return err
 		}
 		// 2. larger programs outside the model: node only
-		m := c.N(800, 20000)
+		m := c.N(800, 25000)
+		if c.Search {
+			m *= 3
+		}
 		ext := make([]string, m)
 		for i := range ext {
 			ext[i] = c01dProgram(c.Rng.Fork(), 3+c.Rng.Intn(8), true)
@@ -514,9 +651,6 @@ func init() {
 		for _, cs := range ecases {
 			cs.known = "-"
 		}
-		if err := c01dStageNode(c, "node-ext", ecases, "larger programs with forms outside the Lean fragment (closures over loop variables, destructuring, for-in/of, do-while, switch, labels, finally): input vs real output under node"); err != nil {
-			return err
-		}
-		return nil
+		return c01dStageNode(c, "node-ext", ecases, "larger programs with forms outside the Lean fragment (closures over loop variables, destructuring, for-in/of, do-while, switch, labels, finally): input vs real output under node")
 	})
 }
